@@ -938,4 +938,144 @@ theorem leaf_slotty_model_eq_spec (env : Env) (i : Nat) (name : Str) (kwargs : L
   rw [← hsid]
   exact ⟨s', hs', hst⟩
 
+/-! ### when the template fails: the same exception on both sides -/
+
+theorem runRenderer_slotty_err (env : Env) (i : Nat) (r : Renderer) (cc : CompCtx) (d : CompDef) (w : World) (er : Err) (st : Nat)
+    (hr : env.raiseAt = none) (hdyn : r.dynInner = none) (hd : findDef env r.name = some d)
+    (hcc : alGet r.id w.ctxCache = some cc) (hun : Unfilled cc) (hinv : CInv r.id r.ctx)
+    (hp : slottyL d.template = true) (ho : okSL d.template = true) (hc : ctxFree r.ctx = true)
+    (hok : qNodes true env.maxSteps i d.template r.ctx w.steps = (.error er, st)) :
+    ((runRenderer env (i + 1) r []).run.run w).1 = .error er := by
+  unfold runRenderer
+  simp only [hdyn, Option.isNone_none, ↓reduceIte, run_bind, run_tick_plain env (.before r.id) w hr (by intro id h; cases h), hd]
+  have := (model_slotty env r.id cc hun i).1 d.template r.ctx r.ctx { w with events := w.events ++ [.before r.id] } hp ho hc
+    (sameNI_refl _) hinv hcc
+  rw [this]
+  have hs : ({ w with events := w.events ++ [.before r.id] } : World).steps = w.steps := rfl
+  rw [hs, hok]
+  rfl
+
+theorem leaf_component_slotty_err (env : Env) (i : Nat) (name : Str) (kwargs : List (Str × Expr)) (only dyn : Bool)
+    (ctx ctx' : Ctx) (w : World) (d : CompDef) (er : Err) (st : Nat)
+    (hctx' : ctx' = if only || env.isolated then isolatedCopy ctx else ctx)
+    (hr : env.raiseAt = none) (hd : findDef env name = some d) (hdyn : isDynName name = false)
+    (hp : slottyL d.template = true) (ho : okSL d.template = true) (hsrc : d.data.all (fun kv => pureSrc kv.2) = true)
+    (hsteps : ¬ w.steps ≥ env.maxSteps) (hgcd : w.gcds < env.maxInst)
+    (hext : isExtracting ctx = false)
+    (hpar : ∀ p, ctxGet ctx' compKey ≠ some (.compRef p))
+    (hout : ctxGet (snapshot ctx) compKey = none)
+    (hprov : w.provideCache = [])
+    (hf3 : alGet w.nextId w.childAttrs = none)
+    (hc : ctxFree (leafCtx ctx' w.nextId (evalKwargs ctx kwargs) d) = true)
+    (hfg : ctxGet (leafCtx ctx' w.nextId (evalKwargs ctx kwargs) d) fillGenKey = none)
+    (hok : qNodes true env.maxSteps (i + 1) d.template (leafCtx ctx' w.nextId (evalKwargs ctx kwargs) d) (w.steps + 1) = (.error er, st)) :
+    ((renderNode env (i + 6) (.comp name kwargs only dyn []) ctx).run.run w).1 = .error er := by
+  have hparent : (match ctxGet ctx' compKey with | some (.compRef p) => some p | _ => (none : Option Nat)) = none := by
+    cases hg : ctxGet ctx' compKey with
+    | none => rfl
+    | some v => cases v <;> first | rfl | exact absurd hg (hpar _)
+  have hun : Unfilled (leafCC name w.nextId ctx) := ⟨rfl, rfl, ⟨snapshot ctx, rfl, hout⟩⟩
+  have hinv : CInv w.nextId (leafCtx ctx' w.nextId (evalKwargs ctx kwargs) d) := by
+    refine ⟨?_, hfg⟩
+    unfold leafCtx
+    rw [snapshot_get _ _ (by decide) (by decide), ctxGet_append_one]
+    simp [lookupL]
+  unfold renderNode
+  simp only [run_bind, run_get, hsteps, ↓reduceIte, run_set]
+  unfold renderCompTag
+  simp only [hext, Bool.false_eq_true, ↓reduceIte, hd, run_bind, run_pure]
+  unfold resolveFills
+  simp only [List.isEmpty_nil, ↓reduceIte, run_pure, ← hctx']
+  unfold renderImpl
+  simp only [run_bind, run_genId, hparent, run_pure, Option.isNone_none, Bool.true_and, Option.isSome_none,
+    Bool.false_eq_true, ↓reduceIte, hdyn, Bool.not_false]
+  have htg := fun w' (h : w'.gcds < env.maxInst) => run_tick_gcd env w.nextId w' hr h
+  have hgd := fun w' => getContextData_pure env w.nextId ctx' (evalKwargs ctx kwargs) d.data [] w' hsrc
+  have hpost : ∀ rc, ((postRender env (i + 3) [{ before := [], child := some w.nextId, parent := none, grand := none }] [] []).run.run
+      (leafW w name ctx (leafCtx ctx' w.nextId (evalKwargs ctx kwargs) d) rc)).1 = .error er := by
+    intro rc
+    unfold postRender
+    simp only [List.isEmpty_nil, ↓reduceIte, run_bind, run_pure, run_get, leafW, alGet_alSet_same, hf3, Option.getD_none, run_set]
+    have h := runRenderer_slotty_err env (i + 1) (leafR name w.nextId ctx (leafCtx ctx' w.nextId (evalKwargs ctx kwargs) d))
+      (leafCC name w.nextId ctx) d
+      ({ leafW w name ctx (leafCtx ctx' w.nextId (evalKwargs ctx kwargs) d) rc with
+          rendererCache := alDel w.nextId (alSet w.nextId (leafR name w.nextId ctx (leafCtx ctx' w.nextId (evalKwargs ctx kwargs) d)) w.rendererCache),
+          childAttrs := alDel w.nextId w.childAttrs } : World) er st hr rfl hd (alGet_alSet_same ..) hun hinv hp ho hc hok
+    revert h
+    simp only [leafW]
+    intro h
+    rcases hrr : (runRenderer env (i + 2) (leafR name w.nextId ctx (leafCtx ctx' w.nextId (evalKwargs ctx kwargs) d)) []).run.run _ with ⟨res, w2⟩
+    rw [hrr] at h
+    simp only at h
+    subst h
+    rfl
+  cases hrc : hasRootRc ctx' with
+  | true =>
+    simp only [↓reduceIte, run_bind, run_modify, registerRefW, hprov, List.isEmpty_nil, htg, hgcd, hd, hgd, run_pure]
+    exact hpost _
+  | false =>
+    simp only [Bool.false_eq_true, ↓reduceIte, run_bind, run_modify, registerRefW, hprov, List.isEmpty_nil, htg, hgcd, hd, hgd, run_pure]
+    exact hpost _
+
+open Djc.SpecRender in
+theorem sNode_leaf_slotty_err (env : Env) (m : Nat) (name : Str) (kwargs : List (Str × Expr)) (only dyn : Bool)
+    (e : SEnv) (s : SState) (d : CompDef) (er : Err) (st : Nat)
+    (hd : findDef env name = some d) (hdyn : isDynName name = false)
+    (hp : slottyL d.template = true) (hsrc : d.data.all (fun kv => pureSrc kv.2) = true)
+    (hsteps : ¬ s.steps ≥ env.maxSteps) (hid : ¬ s.nextId > env.maxInst)
+    (hc : ctxFree (specVars (only || env.isolated) e.vars s.nextId (evalKwargs e.vars kwargs) d) = true)
+    (hok : qNodes false env.maxSteps m d.template (specVars (only || env.isolated) e.vars s.nextId (evalKwargs e.vars kwargs) d)
+      (s.steps + 1) = (.error er, st)) :
+    (sNode env (m + 1) (.comp name kwargs only dyn []) e).run s = .error er := by
+  unfold sNode
+  simp only [srun_bind, srun_get, hsteps, ↓reduceIte, srun_set, hdyn, Bool.false_eq_true, srun_pure, hd, srun_modify,
+    List.isEmpty_nil, List.all_nil, freshId, hid, dataOf_pure _ _ _ _ _ hsrc]
+  have hsp := (spec_slotty env (Inst.mk s.nextId [] (List.length (if (only || env.isolated) = true then [[]] else e.vars)) (only || env.isolated)) rfl m).1
+    d.template
+    (SEnv.mk (specVars (only || env.isolated) e.vars s.nextId (evalKwargs e.vars kwargs) d) e.prov
+      (some (Inst.mk s.nextId [] (List.length (if (only || env.isolated) = true then [[]] else e.vars)) (only || env.isolated))) [])
+    { nextId := s.nextId + 1, defaults := s.defaults, nextRef := s.nextRef, cap := s.cap, path := s.path ++ [name], steps := s.steps + 1, paths := s.paths ++ [s.path ++ [name]] }
+    hp hc rfl
+  have hv : ∀ (X : Ctx) p i dd, (SEnv.mk X p i dd).vars = X := fun _ _ _ _ => rfl
+  rw [hv] at hsp
+  unfold specVars at hsp hok
+  rw [hsp, hok]
+  rfl
+
+open Djc.SpecRender in
+/-- **When the template of such a component fails — a `required` slot that is not filled, a slot name that cannot be
+hashed, the work budget — the code and the reading fail with the same exception.** -/
+theorem leaf_slotty_fail_alike (env : Env) (i : Nat) (name : Str) (kwargs : List (Str × Expr)) (only dyn : Bool)
+    (ctx ctx' : Ctx) (w : World) (e : SEnv) (s : SState) (d : CompDef) (er : Err) (st : Nat)
+    (hctx' : ctx' = if only || env.isolated then isolatedCopy ctx else ctx)
+    (hr : env.raiseAt = none) (hd : findDef env name = some d) (hdyn : isDynName name = false)
+    (hp : slottyL d.template = true) (ho : okSL d.template = true)
+    (hsrc : d.data.all (fun kv => pureSrc kv.2) = true)
+    (hsteps : ¬ w.steps ≥ env.maxSteps) (hgcd : w.gcds < env.maxInst) (hext : isExtracting ctx = false)
+    (hpar : ∀ p, ctxGet ctx' compKey ≠ some (.compRef p)) (hout : ctxGet (snapshot ctx) compKey = none)
+    (hprov : w.provideCache = []) (hf3 : alGet w.nextId w.childAttrs = none)
+    (hc : ctxFree (leafCtx ctx' w.nextId (evalKwargs ctx kwargs) d) = true)
+    (hfg : ctxGet (leafCtx ctx' w.nextId (evalKwargs ctx kwargs) d) fillGenKey = none)
+    (hok : qNodes true env.maxSteps (i + 1) d.template (leafCtx ctx' w.nextId (evalKwargs ctx kwargs) d) (w.steps + 1) = (.error er, st))
+    (hnf : er ≠ .outOfFuel)
+    (he : e.vars = ctx) (hsid : s.nextId = w.nextId) (hss : s.steps = w.steps) (hidle : ¬ s.nextId > env.maxInst)
+    (hc2 : ctxFree (specVars (only || env.isolated) ctx w.nextId (evalKwargs ctx kwargs) d) = true)
+    (hbase : ∀ k, internal k = false → ctxGet ctx' k = ctxGet (if only || env.isolated then [[]] else ctx) k) :
+    ((renderNode env (i + 6) (.comp name kwargs only dyn []) ctx).run.run w).1 = .error er ∧
+      (sNode env (i + 6) (.comp name kwargs only dyn []) e).run s = .error er := by
+  refine ⟨leaf_component_slotty_err env i name kwargs only dyn ctx ctx' w d er st hctx' hr hd hdyn hp ho hsrc hsteps hgcd hext hpar hout
+    hprov hf3 hc hfg hok, ?_⟩
+  subst he
+  have hsame := leaf_sameVars ctx' (if only || env.isolated then [[]] else e.vars) w.nextId (evalKwargs e.vars kwargs) d hbase
+  have h1 : qNodes true env.maxSteps (i + 1) d.template (specVars (only || env.isolated) e.vars w.nextId (evalKwargs e.vars kwargs) d)
+      (w.steps + 1) = (.error er, st) := by
+    rw [← hok]
+    exact ((qNodes_same true env.maxSteps (i + 1)).1 d.template _ _ _ hp ho hsame).symm
+  have h2 : qNodes false env.maxSteps (i + 1 + 4) d.template (specVars (only || env.isolated) e.vars w.nextId (evalKwargs e.vars kwargs) d)
+      (w.steps + 1) = (.error er, st) := by
+    rw [(q_true_false env.maxSteps (i + 1)).1 d.template _ _ 4 (by rw [h1]; simpa [notFuel] using hnf), h1]
+  rw [← hsid, ← hss] at h2
+  rw [← hsid] at hc2
+  exact sNode_leaf_slotty_err env (i + 5) name kwargs only dyn e s d er st hd hdyn hp hsrc (by rw [hss]; exact hsteps) hidle hc2 h2
+
 end Djc.Proofs.Slotty
